@@ -4,7 +4,7 @@
    from the freshly generated derived.gen.go. *)
 From Coq Require Import List NArith.
 Import ListNotations.
-From Verif Require Import Chan.Sem Chan.Expected Chan.Lemmas Chan.FmapProofs Chan.DupProofs Chan.JoinCC Chan.JoinCCLive Chan.JoinSl Chan.JoinSlLive Chan.Explore Chan.Bounded Chan.EnabledComplete Chan.Pipe Chan.PipeLive Chan.JoinVar Chan.JoinVarLive.
+From Verif Require Import Chan.Sem Chan.Expected Chan.Lemmas Chan.FmapProofs Chan.DupProofs Chan.JoinCC Chan.JoinCCLive Chan.JoinSl Chan.JoinSlLive Chan.Explore Chan.Bounded Chan.EnabledComplete Chan.Pipe Chan.PipeLive Chan.JoinVar Chan.JoinVarLive Chan.JoinVarLive2.
 
 (* ---------------- deriveFmap(f, <-chan) ---------------- *)
 Theorem C19_fmap_safety : forall (f : item -> item) xs cin cout s,
@@ -175,11 +175,60 @@ Theorem C19_joinvar_terminates : forall (f : item -> item) inputs cout l s,
 Proof. exact joinvar_terminates. Qed.
 Print Assumptions C19_joinvar_terminates.
 
-(* STILL PARTIAL for the variadic form: deadlock freedom / no leak / "closed only after all inputs are
-   nil and everything is delivered" are established only by exhaustive exploration (n = 2: 0..2 items
-   per input, capacities 0..1; n = 3: 0..1 items).  MISSING: the progress lemma and the final-state
-   lemma over the invariant JoinVar.Cond (which already records, at LClose/LHalt, that every input is
-   nil, hence closed and drained). *)
+(* deadlock freedom and absence of leaks for ALL n >= 1, item lists, capacities (inputs and out,
+   0 = rendezvous) and interleavings: a reachable state without enabled action has every thread halted
+   (the n producers, the goroutine of deriveJoin, the consumer), the consumer has received an
+   interleaving of exactly the inputs, and out is closed *)
+Theorem C19_joinvar_deadlock_free_no_leak : forall (f : item -> item) inputs cout s,
+  0 < length inputs ->
+  reach f (JoinVar.PV inputs) (joinvar_init inputs cout) s -> stuck f (JoinVar.PV inputs) s ->
+  all_halted (JoinVar.PV inputs) s = true
+  /\ Merge (map snd inputs) (cons_log s (S (length inputs)))
+  /\ ch_closed s (length inputs) = true.
+Proof. exact joinvar_stuck_is_done. Qed.
+Print Assumptions C19_joinvar_deadlock_free_no_leak.
+
+(* the terminal state in full: out's buffer is empty, the consumer has seen the close, every input is
+   closed and drained and its producer has sent everything *)
+Theorem C19_joinvar_terminal_state : forall (f : item -> item) inputs cout s,
+  0 < length inputs ->
+  reach f (JoinVar.PV inputs) (joinvar_init inputs cout) s -> stuck f (JoinVar.PV inputs) s ->
+  all_halted (JoinVar.PV inputs) s = true
+  /\ Merge (map snd inputs) (cons_log s (S (length inputs)))
+  /\ ch_closed s (length inputs) = true /\ ch_buf s (length inputs) = []
+  /\ cons_done s (S (length inputs)) = true
+  /\ (forall j, j < length inputs ->
+        prod_done s j = true /\ prod_rem s j = [] /\ ch_closed s j = true /\ ch_buf s j = []).
+Proof. exact joinvar_stuck_is_done_full. Qed.
+Print Assumptions C19_joinvar_terminal_state.
+
+(* progress: in a reachable state some action is enabled unless every thread has halted *)
+Theorem C19_joinvar_progress : forall (f : item -> item) inputs cout s,
+  0 < length inputs ->
+  reach f (JoinVar.PV inputs) (joinvar_init inputs cout) s ->
+  all_halted (JoinVar.PV inputs) s = false ->
+  exists act s', step f (JoinVar.PV inputs) s act = Some s'.
+Proof. exact joinvar_progress. Qed.
+Print Assumptions C19_joinvar_progress.
+
+(* out is closed only after the goroutine of deriveJoin has left its loop and halted: every input is
+   closed and drained, every producer is done, ALL items are delivered or in out's buffer (together
+   with C19_joinvar_safety — no panic — out is closed exactly once) *)
+Theorem C19_joinvar_closed_only_when_drained : forall (f : item -> item) inputs cout s,
+  0 < length inputs ->
+  reach f (JoinVar.PV inputs) (joinvar_init inputs cout) s ->
+  ch_closed s (length inputs) = true ->
+  option_map (halted (JoinVar.PV inputs)) (nth_error (thr s) (length inputs)) = Some true
+  /\ (forall j, j < length inputs ->
+        prod_done s j = true /\ prod_rem s j = [] /\ ch_closed s j = true /\ ch_buf s j = [])
+  /\ Merge (map snd inputs) (cons_log s (S (length inputs)) ++ ch_buf s (length inputs)).
+Proof. exact joinvar_closed_only_when_drained. Qed.
+Print Assumptions C19_joinvar_closed_only_when_drained.
+
+(* No longer the only evidence for the variadic form (the four theorems above hold for all n, item
+   lists, capacities, interleavings); kept as an independent cross-check of the proofs by exhaustive
+   exploration with the executable semantics (n = 2: 0..2 items per input, capacities 0..1; n = 3:
+   0..1 items): the explorer finds no panic, deadlock, leak, wrong delivery or cycle. *)
 Theorem C19_joinvar_bounded_partial :
   no_violation (search_all KJoinVar (exp_join_var 2) joinvar_configs2 2000 0%N 0%N) = true
   /\ no_violation (search_all KJoinVar (exp_join_var 3) joinvar_configs3 2000 0%N 0%N) = true.
